@@ -28,20 +28,20 @@ MUTANTS = [
     ("c10_pop0", "C10", "xitorch/_core/pure_function.py",
      "self._restore_stack.pop(-1)", "self._restore_stack.pop(0)", 1),
     ("c10_linop_restore_params", "C10", "xitorch/_core/linop.py",
-     "            self.setuniqueparams(methodname, *_orig_params_)\n",
+     "            self.setparams(methodname, *_orig_params_)\n",
      "            self.setuniqueparams(methodname, *params)\n", 1),
     ("c10_linop_no_finally", "C10", "xitorch/_core/linop.py",
-     "        try:\n            _orig_params_ = self.getuniqueparams(methodname)\n            self.setuniqueparams(methodname, *params)\n            yield self\n        finally:\n            self.setuniqueparams(methodname, *_orig_params_)\n",
-     "        _orig_params_ = self.getuniqueparams(methodname)\n        self.setuniqueparams(methodname, *params)\n        yield self\n        self.setuniqueparams(methodname, *_orig_params_)\n", 1),
+     "            _orig_params_ = self.getparams(methodname)\n            self.setuniqueparams(methodname, *params)\n            yield self\n        finally:\n            self.setparams(methodname, *_orig_params_)\n",
+     "            _orig_params_ = self.getparams(methodname)\n            self.setuniqueparams(methodname, *params)\n            yield self\n        except ZeroDivisionError:\n            pass\n        if True:\n            self.setparams(methodname, *_orig_params_)\n", 1),
     ("c10_debug_no_restore", "C10", "xitorch/debug/modes.py",
      "        set_debug_mode(True)\n        yield\n    except Exception as e:\n        raise e\n    finally:\n        set_debug_mode(dbg_mode)\n",
      "        set_debug_mode(True)\n        yield\n        set_debug_mode(dbg_mode)\n    except Exception as e:\n        raise e\n", 1),
     ("c10_assertparams_no_finally", "C10", "xitorch/_core/editable_module.py",
-     "        finally:\n            # return the original tensor (also if the method raises)\n            all_tensors_copy = copy.copy(all_tensors)\n            _set_tensors(self, all_tensors_copy)\n",
-     "        except ZeroDivisionError:\n            pass\n        if True:\n            all_tensors_copy = copy.copy(all_tensors)\n            _set_tensors(self, all_tensors_copy)\n", 1),
+     "        finally:\n            # return the original tensors to exactly the places they were taken\n",
+     "        except ZeroDivisionError:\n            pass\n        if True:\n            # return the original tensors to exactly the places they were taken\n", 1),
     ("c10_restore_skipped_for_nondiff", "C10", "xitorch/_core/pure_function.py",
-     "        old_objparams, identical = self._restore_stack.pop(-1)\n        if not identical:\n",
-     "        old_objparams, identical = self._restore_stack.pop(-1)\n        if not identical and all(p.requires_grad for p in old_objparams):\n", 1),
+     "        old_allobjparams, identical = self._restore_stack.pop(-1)\n        if not identical:\n",
+     "        old_allobjparams, identical = self._restore_stack.pop(-1)\n        if not identical and all(p.requires_grad for p in old_allobjparams):\n", 1),
     ("c10_setparams_reversed", "C10", "xitorch/_core/editable_module.py",
      "        for name, val in zip(paramnames, params):\n            try:\n                set_attr(self, name, val)\n",
      "        for name, val in zip(paramnames[::-1], params):\n            try:\n                set_attr(self, name, val)\n", 1),
@@ -149,15 +149,15 @@ MUTANTS = [
      "retain_graph=True, create_graph=torch.is_grad_enabled())  # (*nin)\n",
      "retain_graph=True, create_graph=False)  # (*nin)\n", 1),
     ("c17_mv_no_update_params", "C17", "xitorch/grad/jachess.py",
-     "                self.__update_params()\n                yparam = self.params[self.idx]\n                yout = self.fcn(*self.params)  # (*nout)\n                v = ",
-     "                yparam = self.params[self.idx]\n                yout = self.fcn(*self.params)  # (*nout)\n                v = ", 1),
+     "                params = self.__current_params()\n                yparam = params[self.idx]\n                yout = self.fcn(*params)  # (*nout)\n                v = ",
+     "                params = self.params\n                yparam = params[self.idx]\n                yout = self.fcn(*params)  # (*nout)\n                v = ", 1),
     ("c17_rmv_no_useobjparams", "C17", "xitorch/grad/jachess.py",
-     "            with torch.enable_grad(), self.fcn.useobjparams(self.objparams):\n                self.__update_params()\n                yparam = self.params[self.idx]\n                yout = self.fcn(*self.params)  # (*nout)\n\n",
-     "            with torch.enable_grad():\n                self.__update_params()\n                yparam = self.params[self.idx]\n                yout = self.fcn(*self.params)  # (*nout)\n\n", 1),
+     "            with torch.enable_grad(), self.fcn.useobjparams(self.objparams):\n                params = self.__current_params()\n                yparam = params[self.idx]\n                yout = self.fcn(*params)  # (*nout)\n\n",
+     "            with torch.enable_grad():\n                params = self.__current_params()\n                yparam = params[self.idx]\n                yout = self.fcn(*params)  # (*nout)\n\n", 1),
     ("c17_rmv_reshape_inshape", "C17", "xitorch/grad/jachess.py",
      "grad_outputs=gout1[i].reshape(self.outshape),", "grad_outputs=gout1[i].reshape(self.inshape),", 1),
     ("c17_linop_restore_params", "C17", "xitorch/_core/linop.py",
-     "            self.setuniqueparams(methodname, *_orig_params_)\n",
+     "            self.setparams(methodname, *_orig_params_)\n",
      "            self.setuniqueparams(methodname, *params)\n", 1),
     ("c17_solve_bwd_no_substitution", "C17", "xitorch/linalg/solve.py",
      "            params = [p.clone().requires_grad_() for p in params]\n            with ctx.A.uselinopparams(*params):\n                loss = -ctx.A.mm(x)  # (*BABEM, nr, ncols)\n",
@@ -219,6 +219,43 @@ MUTANTS = [
     ("c17_nofa_never_cache", "C17", "xitorch/grad/jachess.py",
      "    def __param_tensors_unchanged(self):\n        return [id(param)",
      "    def __param_tensors_unchanged(self):\n        return False and [id(param)", 0),
+    # ---------------- reverts of the later repairs
+    ("c10_stale_restore_revert", "C10", "xitorch/_core/pure_function.py",
+     "        cur_allobjparams = self._get_all_obj_params_init()\n",
+     "        cur_allobjparams = self._uniq.map_unique_objs(self._cur_objparams)\n", 1),
+    ("c10_pergroup_restore_revert", "C10", "xitorch/_core/pure_function.py",
+     "            self._set_all_obj_params(old_allobjparams)\n",
+     "            self._set_all_obj_params(self._uniq.map_unique_objs(self._uniq.get_unique_objs(old_allobjparams)))\n", 1),
+    ("c10_debug_places_revert", "C10", "xitorch/_core/editable_module.py",
+     "            for (objdict, key), tensor in zip(all_places, all_tensors):\n                objdict[key] = tensor\n",
+     "            _set_tensors(self, copy.copy(all_tensors))\n", 1),
+    ("c10_debug_install_outside_try", "C10", "xitorch/_core/editable_module.py",
+     "        try:\n            for (objdict, key), tensor in zip(all_places, copy_tensors0):\n                objdict[key] = tensor\n",
+     "        for (objdict, key), tensor in zip(all_places, copy_tensors0):\n            objdict[key] = tensor\n        try:\n", 1),
+    ("c17_objparams_stale_revert", "C17", "xitorch/_core/pure_function.py",
+     "        return self._uniq.get_unique_objs(self._get_all_obj_params_init())\n\n    def set_objparams",
+     "        return self._cur_objparams\n\n    def set_objparams", 1),
+    ("c17_shadowed_params_revert", "C17", "xitorch/_core/pure_function.py",
+     "        named_params = [(name, p) for (name, p) in named_params if p is not None]\n",
+     "        named_params = [(name, p) for (name, p) in named_params if isinstance(p, torch.nn.Parameter)]\n", 1),
+    ("c16_bwd_caller_tensors_revert", "C16", "xitorch/integrate/mcquad.py",
+     "            fptensor_params_copy = [y.detach().requires_grad_() for y in fptensor_params]\n",
+     "            fptensor_params_copy = list(fptensor_params)\n", 1),
+    ("c16_only_x0_revert", "C16", "xitorch/integrate/mcquad.py",
+     "        if len(fptensor_params) == 0:\n", "        if False:\n", 1),
+    ("c19_jac_keeps_params_revert", "C19", "xitorch/grad/jachess.py",
+     "        return self.param_sep.reconstruct_params(self.params_tensor)\n",
+     "        self.params = self.param_sep.reconstruct_params(self.params_tensor)\n        return self.params\n", 1),
+    ("c20_getter_internal_list_revert", "C20", "xitorch/_core/packer.py",
+     "            params_tensors = list(params_tensors)\n", "            pass\n", 1),
+    ("c20_atomic_revert", "C20", "xitorch/_core/packer.py",
+     "ALL: and not _is_atomic(b):", ":", 1),
+    ("c11_shape_list_revert", "C11", "xitorch/_core/linop.py",
+     "ALL:        if tuple(self.shape[-2:]) != tuple(b.shape[-2:]):", "        if self.shape[-2:] != b.shape[-2:]:", 1),
+    ("c11_hermitian_atol_revert", "C11", "xitorch/_core/linop.py",
+     "rtol=1e-5, atol=1e-8 * scale)", "rtol=1e-5, atol=1e-8)", 1),
+    ("c11_bcast_max_revert", "C11", "xitorch/_utils/bcast.py",
+     "        res.append(others.pop() if others else 1)\n", "        res.append(max(sizes))\n", 1),
     ("c11_nofa_init_subclass", "C11", "xitorch/_core/linop.py",
      "    def __new__(cls, *args, **kwargs):\n        # check the implemented functions in the class\n",
      "    def __init_subclass__(cls, **kwargs):\n        super().__init_subclass__(**kwargs)\n"
